@@ -33,7 +33,11 @@ SetKind == {"ball", "half", "box"}
 \*                    steplength * direction rounds one unit outside the bound depends on the digits, so the class is concretised many times)
 \*   bound_then_arc   (n >= 3) a bound is met strictly inside the ball during the conjugate-gradient phase, at least two variables stay free and reach
 \*                    the sphere: the search along the boundary arc starts with a fixed variable whose step component is not zero
-Coin == {"none", "bound_on_sphere", "tied_bounds", "bound_at_delta", "bound_then_arc"}
+\*   late_bound_then_arc  as bound_then_arc, but the bound belongs to the variable that carries most of the gradient and is met LATER in the
+\*                    conjugate-gradient phase (0.1 .. 0.95 delta away), with curvature dominated by one direction (a Jacobian with one large row): the fixed
+\*                    variable's step component is large and strongly coupled to the free ones when the arc search starts.  Which rotation angle wins
+\*                    depends on the digits, so the class is concretised many times
+Coin == {"none", "bound_on_sphere", "tied_bounds", "bound_at_delta", "bound_then_arc", "late_bound_then_arc"}
 \* Convex kernels: are the user's sets active inside the trust region?  "inside": every set contains the whole trust region around xopt's neighbourhood
 \* (only the ball binds); "active": every set's boundary passes within the trust region and the descent direction points at it, so the step is decided by
 \* the alternating projections onto the sets AND the ball (rel: two half-spaces in general position / nearly parallel - slow convergence of the projections)
@@ -51,10 +55,12 @@ CoinOK(c, p, s) == CASE c = "none" -> TRUE
                      [] c = "bound_at_delta" -> Cardinality(Movable(p, s)) >= 1
                      [] c = "bound_then_arc" -> Cardinality(DOMAIN p) >= 3 /\ Cardinality(Movable(p, s)) >= 1
                                                 /\ Cardinality({i \in DOMAIN p : s[i] # "zero" /\ p[i] \in {"in", "free"}}) >= 3
+                     [] c = "late_bound_then_arc" -> Cardinality(DOMAIN p) >= 3 /\ Cardinality(Movable(p, s)) >= 1
+                                                /\ \A i \in DOMAIN p : s[i] # "zero" /\ p[i] \in {"in", "free"}
 
 Init == \/ /\ kernel = "trsbox" /\ n \in 1..MaxN /\ pos \in [1..n -> Pos] /\ sgn \in [1..n -> Sgn] /\ hk \in HKind /\ sets = <<>>
            /\ coin \in Coin /\ CoinOK(coin, pos, sgn) /\ act = "inside" /\ rel = "generic"
-           /\ (coin = "bound_at_delta" => hk = "zero") /\ (coin = "bound_then_arc" => hk \in {"indefinite", "psd_lowrank"})
+           /\ (coin = "bound_at_delta" => hk = "zero") /\ (coin = "bound_then_arc" => hk \in {"indefinite", "psd_lowrank"}) /\ (coin = "late_bound_then_arc" => hk = "psd_lowrank")
         \/ /\ kernel = "trsbox_geometry" /\ n \in 1..MaxN /\ pos \in [1..n -> Pos] /\ sgn \in [1..n -> Sgn] /\ hk = "zero" /\ sets = <<>> /\ coin = "none" /\ act = "inside" /\ rel = "generic"
         \/ /\ kernel \in {"ctrsbox_pgd", "ctrsbox_geometry", "ctrsbox_sfista"} /\ n \in 2..3 /\ pos = [i \in 1..n |-> "in"] /\ sgn \in [1..n -> {"neg", "pos"}]
            /\ act \in Act /\ rel \in Rel
